@@ -52,6 +52,8 @@ def build_views(ch):
     s_off = {n: st.add(n) for n in s_needed + ['libself.so.1', '/opt/lib:$ORIGIN', '$ORIGIN/../lib', 'filter.so']}
     # ---- symbols
     names = [''] + ['dsym%d' % i for i in range(1, nsym)]
+    if ch.pick('symbol_names', ['unique', 'one_name_twice']) == 'one_name_twice' and nsym >= 3:
+        names[-2] = names[-1]           # two definitions of one name (foo@V1, foo@@V2): a by-name query must return both, through whatever table it goes
     symoff = {'count': nsym}.get(gnu_symoff, gnu_symoff)
     symoff = min(symoff, nsym)
     if hash_kind in ('gnu', 'both'):
